@@ -79,6 +79,8 @@ fn main() {
             } else {
                 match k {
                     "store" => d.store_ev(a as usize),
+                    // store with every LMDB reader slot taken; recorded as an ordinary store call (kout below)
+                    "sstore" => d.store_ev_starved(a as usize),
                     "remove" => (d.remove(a as usize), -1),
                     "vanish" => (d.vanish(a as usize), -1),
                     "reopen" => (d.reopen_mode(a == 0), -1), // a = 0: cold (environment closed), 1: warm
@@ -113,7 +115,7 @@ fn main() {
                     other => panic!("unknown op {}", other),
                 }
             };
-            emit(&mut out, &d, k, a, &res, off, x);
+            emit(&mut out, &d, if k == "sstore" { "store" } else { k }, a, &res, off, x);
         }
         d.close();
         drop(d);
